@@ -99,7 +99,13 @@ async fn run_case(case: Vec<String>) -> String {
     builder.add_layer(RecLayer { name: "rec", take: true, seen: seen.clone(), taken: taken.clone() });
     let endpoint = builder.build();
 
-    let rr_lines: String = rr.iter().map(|r| format!("Record-Route: <{}>\r\n", r)).collect();
+    // the same route set as separate header lines or as one comma separated line (RFC 3261 7.3.1: equivalent)
+    let joined = callid.bytes().fold(0u32, |a, b| a.wrapping_mul(31).wrapping_add(b as u32)) % 2 == 1;
+    let rr_lines: String = if joined && !rr.is_empty() {
+        format!("Record-Route: {}\r\n", rr.iter().map(|r| format!("<{}>", r)).collect::<Vec<_>>().join(", "))
+    } else {
+        rr.iter().map(|r| format!("Record-Route: <{}>\r\n", r)).collect()
+    };
     let mut invite_req: Option<IncomingRequest> = None;
     let dialog: Dialog = if role == "S" {
         let text = format!(
